@@ -145,6 +145,7 @@ pub fn all_compositions(n: usize) -> Vec<Vec<usize>> {
 /// A source that hands out at most `sched[i]` octets on its i-th call (cycling
 /// through `sched`; 0 or an empty schedule means "as much as asked"), and fails
 /// once, at call number `fault_at`.
+#[derive(Debug)]
 pub struct SchedReader {
     pub data: Vec<u8>,
     pub pos: usize,
@@ -191,6 +192,7 @@ impl Read for SchedReader {
 }
 
 /// BufRead flavour: fill_buf exposes at most the scheduled number of octets.
+#[derive(Debug)]
 pub struct SchedBufReader {
     pub inner: SchedReader,
     window: usize,
